@@ -46,12 +46,15 @@ def gen(ctx):
         else:
             u = [rng.randint(lo, hi) for _ in range(L)]
         yield dict(kind="ap", u=u, m=m, r=rng.choice([0, 0, 1, 2, 3]), digits=int(digits))
+    for L in ([130, 300] if ctx.tier == "quick" else [127, 128, 129, 130, 257, 300, 600]):
+        m = rng.choice([1, 2, 3])
+        yield dict(kind="ap", u=[rng.randint(0, 3) for _ in range(L)], m=m, r=rng.choice([0, 1]), digits=1, long=1)
     for bad in ("tuple", "int", "none", "range"):
         yield dict(kind="bad", form=bad)
 
 
 def line(c):
-    if c["kind"] == "bad":
+    if c["kind"] == "bad" or c.get("long"):
         return None
     return "apen u=%s m=%d r=%d" % (fmt.vec(c["u"]), c["m"], c["r"])
 
